@@ -182,6 +182,17 @@ class Interp:
         if not isinstance(base, PtrVal):
             return self.unknown_ptr(st)
         if base.is_null:
+            # nullptr + 0 is nullptr (begin()/end() of a container without storage: m_data + m_size with both zero)
+            if base.off.is_const() and base.off.c == 0 and all(s['k'] != 'field' for s in gep['steps']):
+                zero = True
+                for s in gep['steps']:
+                    iv = self.val(st, V(s['v']), fn)
+                    u = (st.as_u(iv) if iv.s is None else st.as_s(iv)) if isinstance(iv, IntVal) else None
+                    if u is None or not st.cons.entails_eq(u, 0):
+                        zero = False
+                        break
+                if zero:
+                    return base
             # offsetof idiom / null arithmetic: keep null-based pointer as unknown
             return self.unknown_ptr(st)
         off = base.off
@@ -917,7 +928,8 @@ class Interp:
     def cmp_forms(self, st, pred, a, b, force=False):
         """linear forms (la, lb) to compare under pred's signedness"""
         if isinstance(a, PtrVal) and isinstance(b, PtrVal):
-            if a.obj is not None and a.obj == b.obj:
+            if a.obj == b.obj:
+                # (both null: nullptr + m against nullptr + n, as in the empty-range loops of a container without storage)
                 return a.off, b.off
             return None
         if not (isinstance(a, IntVal) and isinstance(b, IntVal)):
@@ -1661,7 +1673,7 @@ class Interp:
                 for wk in bad:
                     if wk not in flipped:
                         flipped.add(wk)
-                        if wk[0] in ('pstride', 'objcell', 'istride'):
+                        if wk[0] in ('pstride', 'objcell', 'istride', 'pnull'):
                             signs[wk] = True
                         else:
                             cur = [n for n in newsyms if self.what_key(n[2]) == wk][0][4]
@@ -1807,7 +1819,9 @@ class Interp:
                 x = H.fresh_int(iv.w, signed, 'phi_' + hint)
                 H.env[('i', ph.id)] = x
                 newsyms.append(((x.s if signed else x.u), init, ('phi', ph), iv.w, signed))
-            elif isinstance(iv, PtrVal) and iv.obj is not None:
+            elif isinstance(iv, PtrVal) and (iv.obj is not None or not signs.get(('pnull', ph.id))):
+                # (a cursor that starts at nullptr + k - the begin()/end() loops of a container without storage - is kept as
+                # null + offset as long as every back edge stays null-based; otherwise ('pnull') it is an unknown pointer)
                 # pointer phi: offset = entry offset + stride * x, x a fresh
                 # integer (stride = pointee size, so that p != end over
                 # elements is exact integer reasoning)
@@ -1947,6 +1961,16 @@ class Interp:
                         l = T.as_s(nv) if signed else T.as_u(nv)
                         if l is None:
                             bad.append(self.what_key(what))
+                elif isinstance(nv, PtrVal) and nv.obj is None and self._pphi_obj.get(ph.id) is None:
+                    d = nv.off - what[3]
+                    if what[2] == 1:
+                        l = d
+                    elif d.divisible(what[2]):
+                        l = d.div_exact(what[2])
+                    else:
+                        bad.append(('pstride', ph.id))
+                elif self._pphi_obj.get(ph.id) is None:
+                    bad.append(('pnull', ph.id))
                 elif isinstance(nv, PtrVal) and nv.obj is not None:
                     d = nv.off - what[3]
                     if what[2] == 1:
@@ -2065,7 +2089,8 @@ class Interp:
                 if pa != pb:
                     pairs += [(1, -2), (1, -4), (1, -8), (1, 2), (1, 4), (1, 8),
                               (-2, 1), (-4, 1), (-8, 1), (2, 1), (4, 1), (8, 1)]
-                if pa and pb:
+                if pa == pb:
+                    # two cursors (pointers or indices) of which one advances up to twice as fast (escaping encoders)
                     pairs += [(1, -2), (2, -1)]
                 for ka, kb in pairs:
                     e = xa * ka + xb * kb - (ia * ka + ib * kb)
